@@ -71,6 +71,9 @@ type opModel struct {
 type labels map[string]int
 
 type model struct {
+	// lateTick: a timer is due but its tick has deliberately not been
+	// delivered yet (raceTimer), so calls that wait for it may be overdue.
+	lateTick bool
 	// Model-owned "last operation started" time of every invocation (C04
 	// least-recently-served tie-break): queue name + invocation path.
 	lastServed        map[string]int64
@@ -1270,7 +1273,7 @@ func (m *model) observeTerminates() {
 			m.w.mu.Lock()
 			returned := res.returned
 			m.w.mu.Unlock()
-			if !returned && m.w.clk.Now().After(res.startTime.Add(idleSyncInterval)) {
+			if !returned && !m.lateTick && m.w.clk.Now().After(res.startTime.Add(idleSyncInterval)) {
 				m.w.failf("C06: Synchronize of worker %d has been blocked since %s, longer than the idle synchronization interval", wk.idx, res.startTime.Sub(m.startAt))
 			}
 		}
@@ -1346,6 +1349,22 @@ func (m *model) checkTimeouts(snap *scheduler.VerifSnapshot, now time.Time) {
 	m.justTicked = false
 	w := m.w
 	m.checkQueueSet(now)
+	// ... and not before: a worker that synchronized less than the worker
+	// time-out ago is still registered.
+	for _, wk := range w.workers {
+		if !wk.everSync || wk.reject != "" || wk.inFlight != nil || !now.Before(wk.lastRet.Add(workerTimeout)) {
+			continue
+		}
+		found := false
+		for _, vw := range snap.Workers {
+			if workerKeyOf(wk) == vw.Key && m.queueNameOf(wk) == vw.QueueName {
+				found = true
+			}
+		}
+		if !found {
+			w.failf("C06: worker %d last synchronized at %s and may stay away until %s, but is no longer registered at %s", wk.idx, wk.lastRet.Sub(m.startAt), wk.lastRet.Add(workerTimeout).Sub(m.startAt), now.Sub(m.startAt))
+		}
+	}
 	for _, vw := range snap.Workers {
 		for _, wk := range w.workers {
 			if workerKeyOf(wk) == vw.Key && m.queueNameOf(wk) == vw.QueueName && wk.inFlight == nil && wk.everSync {
